@@ -157,6 +157,33 @@ theorem C01_every_dump_transform (cfg : Option MetaCfg) (ci : ClassInfo) (ftys :
       (fun f hf k hk => by simp [htag]),
     tagFacts := fun t ht => by cases ht }
 
+/-- **the NONE transform, any identifier.** Under `key_transform_with_dump = NONE` the key-spelling condition needs no
+assumption on the spelling of the names at all: for a class whose fields are plain constructor fields without aliases
+(whatever their names — `t` next to `T`, `userName` next to `user_name`, non-ASCII letters …), the dump key of a field is its
+name and the loader resolves a key that *is* a field name to exactly that field, before any key transform or
+case-insensitive matching is tried; the one side condition is that no field of a tagged class is named like its tag key. -/
+theorem C01_none_transform_any_identifier (cfg : Option MetaCfg) (ci : ClassInfo)
+    (hplain : ∀ f ∈ ci.fields, f.init = true ∧ f.loadKeys = [] ∧ f.dumpAll = false)
+    (hnone : (effMeta ci.cmeta cfg).keyTransformDump = some .none)
+    (htag : ∀ f ∈ ci.fields,
+      ((effMeta ci.cmeta cfg).tag.isSome && f.name == RT.tagKeyOf (effMeta ci.cmeta cfg)) = false) :
+    ∀ f ∈ ci.fields, dumpKey (effMeta ci.cmeta cfg) f = .ok f.name ∧
+      resolveKey (effMeta ci.cmeta cfg) ci f.name = .ok (.field f.name) := by
+  intro f hf
+  obtain ⟨hinit, hkeys, hall⟩ := hplain f hf
+  have hmem : f.name ∈ initFieldNames ci := by
+    unfold initFieldNames
+    exact List.mem_map.2 ⟨f, List.mem_filter.2 ⟨hf, by simp [hinit]⟩, rfl⟩
+  have hc : (initFieldNames ci).contains f.name = true := by simpa using hmem
+  have htk := htag f hf
+  simp only [RT.tagKeyOf] at htk
+  refine ⟨?_, ?_⟩
+  · simp [dumpKey, hall, hnone, LetterCaseOpt.toLC, Str.LetterCase.apply]
+  · unfold resolveKey
+    simp only [RT.aliasTable_nil ci (fun g hg => (hplain g hg).2.1), List.reverse_nil, List.find?_nil]
+    simp [htk, pure, Except.pure]
+    intro h; exact absurd hmem h
+
 /-- `user_name`, `zip_code2` and `id` … are names of that class (non-vacuity of `RT.NameOK`) -/
 theorem C01_nameOK_examples : RT.NameOK "user_name".toList ∧ RT.NameOK "zip_code2".toList ∧ RT.NameOK "id".toList :=
   ⟨⟨["user".toList, "name".toList], by simp, by decide, by decide⟩,
